@@ -96,20 +96,9 @@ Definition th06_cfg (ex : list lstmt -> list Z) : cfg :=
   {| general := gen_general LEcl G_Th06; anti := gen_anti LEcl G_Th06; params := [];
      tyof := fun d => if N.eqb d 0 then Some TInt else None; explicit := ex |}.
 
-(* with the scan of the pinned source, the local is put into I0 (-10001), which the code mentions *)
-Lemma f03_collides :
-  match assign_registers (th06_cfg explicit_regs_top) f03_code with
-  | Ok (_, code') => existsb (fun x => match x with
-                                       | Instr 200 _ _ (Known [Raw (SReg r _); DiffSwitch (Some (Raw (SReg r' _)) :: _)]) => r =? r'
-                                       | _ => false
-                                       end) code'
-  | _ => false
-  end = true.
-Proof. vm_compute. reflexivity. Qed.
-
-(* with the fixed scan it gets I1 *)
+(* the local gets I1 (-10002): I0 is named inside the switch *)
 Lemma f03_fixed :
-  match assign_registers (th06_cfg explicit_regs_deep) f03_code with
+  match assign_registers (th06_cfg (explicit_regs_sel gen_explicit_deep)) f03_code with
   | Ok (_, Instr _ _ _ (Known [Raw (SReg r _); _]) :: _) | Ok (_, _ :: Instr _ _ _ (Known [Raw (SReg r _); _]) :: _) => r
   | _ => 0
   end = -10002.
@@ -152,13 +141,16 @@ Proof.
   exists r, t. repeat split; auto. intros Hm. apply D. rewrite He. now apply Hex.
 Qed.
 
-Lemma p_no_collision_fixed : no_collision_with explicit_regs_deep (fun _ => True).
-Proof. apply no_collision_with_complete. intros code r _. apply explicit_regs_deep_complete. Qed.
+(* the scan in force is the one that enters difficulty switches *)
+Lemma gen_explicit_is_deep : gen_explicit_deep = true.
+Proof. reflexivity. Qed.
 
-Lemma p_no_collision_current :
-  no_collision_with (explicit_regs_sel gen_explicit_deep)
-                    (fun code => gen_explicit_deep = true \/ switch_reg_free code = true).
-Proof. apply no_collision_with_complete. intros code r Hg. now apply explicit_sel_complete. Qed.
+Lemma p_explicit_regs_complete : forall code r,
+  mentioned code r <-> In r (explicit_regs_sel gen_explicit_deep code).
+Proof. rewrite gen_explicit_is_deep. exact explicit_regs_deep_complete. Qed.
+
+Lemma p_no_collision : no_collision_with (explicit_regs_sel gen_explicit_deep) (fun _ => True).
+Proof. apply no_collision_with_complete. intros code r _. apply p_explicit_regs_complete. Qed.
 
 Lemma p_alloc_result : forall c code s code',
   cfg_ok c -> assign_registers c code = Ok (s, code') ->
